@@ -26,6 +26,7 @@ func init() {
 }
 
 func runC13(c *eng.Ctx) {
+	defer runC13Frag(c)
 	p := c.P
 	W := "tsdb/wlog"
 	w := c.Fn(W + ":WL.log")
